@@ -53,11 +53,14 @@ pub fn random_rt_params(r: &mut Rng, pool: &Pool, options: bool) -> RtParams {
         return RtParams { ser: SerParams { cdata: vec![], unescaped_gt: false, suppress: vec![] }, decl: None, indent: false };
     }
     let ser = random_params(r, pool);
+    // the encoding label is a parameter like any other: the crate writes it as given and writes the same characters whatever
+    // it says (the result is a String), so every label has to read back to the same tree
+    let label = |r: &mut Rng| -> String { r.pick(&["UTF-8", "UTF-8", "utf-8", "US-ASCII", "ASCII", "ISO-8859-1", "UTF-16"]).to_string() };
     let decl = match r.below(4) {
         0 => None,
         1 => Some((None, None)),
-        2 => Some((Some("UTF-8".to_string()), None)),
-        _ => Some((if r.chance(1, 2) { Some("UTF-8".to_string()) } else { None }, Some(r.chance(1, 2)))),
+        2 => Some((Some(label(r)), None)),
+        _ => Some((if r.chance(1, 2) { Some(label(r)) } else { None }, Some(r.chance(1, 2)))),
     };
     RtParams { ser, decl, indent: r.chance(1, 2) }
 }
